@@ -609,3 +609,13 @@ def pow2_of(k):
     """2 ** k for the exponents a MIDI time signature can carry"""
     return (1 if k == 0 else 2 if k == 1 else 4 if k == 2 else 8 if k == 3 else 16 if k == 4
             else 32 if k == 5 else 64 if k == 6 else 128 if k == 7 else -1)
+
+
+# ------------------------------------------------------------------ ghost event trace (sequencer hooks)
+_TRACE = []
+
+
+@primitive
+def trace_events():
+    """the records appended by the abstract hooks since the call under contract started"""
+    return list(_TRACE)
